@@ -98,7 +98,9 @@ def _c19_doc_term(t, i, env):
     if h in ("t", "f"):
         return "(MacroDoc.DBool %s)" % ("true" if h == "t" else "false"), i + 1
     if h[0] == "i":
-        return "(MacroDoc.DInt (%d)%%Z)" % int(h[1:]), i + 1
+        num, _, ty = h[1:].partition(":")
+        sfx = "(Some Macro.T%s)" % ty.upper() if ty else "None"
+        return "(MacroDoc.DInt %s (%d)%%Z)" % (sfx, int(num)), i + 1
     if h[0] == "d":
         cps = "[" + "; ".join(str(ord(c)) for c in h[2:]) + "]"
         return "(MacroDoc.DFloat %s %s)" % ("true" if h[1] == "-" else "false", cps), i + 1
